@@ -37,6 +37,12 @@ BATTERY = [
     {"a": None, "b": False, "c": 0, "d": "", "e": [], "f": {}, "g": [1, {"a": "x"}], "h": {"a": {"a": 1}}},
     [[[[1]]], {"a": [{"a": [{"a": 1}]}]}, "abc", 2**53, -2**53, 1e308, -0.0],
     {"": 1, "0": 2, "-1": 3, " ": 4, "'": 5, "\n": 6, "\U0001F600": 7},
+    # records whose members a-e hold look-alike values of every kind (same-size objects with other names, ...)
+    [{"a": {"x": 1}, "b": {"y": 1}, "c": [1], "d": [True], "e": None},
+     {"a": {"x": 1, "z": 0}, "b": {"x": 1, "y": 2}, "c": "1", "d": 1, "e": [{"x": 1}, {"y": 1}]},
+     {"a": [{"x": None}], "b": [{"y": None}], "c": {"a": {"b": 1}}, "d": {"a": {"c": 1}}, "e": 1.5},
+     {"a": "ab", "b": "\U0001F600", "c": 2**60, "d": -1e300, "e": {"": {}}}],
+    {"a": {"a": {"x": 1}, "b": {"y": 1}}, "b": [[], {}, [[]], [{}]], "c": {"c": {"c": {"c": None}}}, "d": "d", "e": False},
 ]
 
 
